@@ -212,6 +212,16 @@ class Algebra:
         else:
             raise ValueError("No algebra by this name is known.")
 
+    def __eq__(self, other):
+        # The signature array is excluded from the generated dataclass comparison (arrays have no
+        # truth value), but algebras with the same p, q, r and a differently ordered signature
+        # are different algebras and their elements must not be combined.
+        if other.__class__ is not self.__class__:
+            return NotImplemented
+        return ((self.p, self.q, self.r, self.basis, self.cse, self.graded)
+                == (other.p, other.q, other.r, other.basis, other.cse, other.graded)
+                and np.array_equal(self.signature, other.signature))
+
     def __len__(self):
         return 2 ** self.d
 
